@@ -602,7 +602,9 @@ func resolveNamed(tc TC, ctx *Pkg, d *Decl, rec bool) resolution {
 		if o := d.Pkg.findOverride(tc, namedTarget(d)); o != nil {
 			return resolution{mode: mTypePkg, ov: o}
 		}
-		if x := d.Pkg.findDerive(tc, d); x != nil {
+		// only a directive of the type's package is relied upon: an instance that package derives
+		// on demand (recursive=true) may or may not exist
+		if x := d.Pkg.findDerive(tc, d); x != nil && !x.Implicit {
 			return resolution{mode: mTypePkgDerive, ctx: d.Pkg, rec: x.Recursive}
 		}
 	}
